@@ -420,14 +420,14 @@ def W.addTimeOut (w : W) (rid : Nat) : W :=
   let r := w.k.getR rid
   let a := wheelAdd w.db.tCheck w.db.seq r.timeoutT r.tChecked
   { w with db := { w.db with seq := w.db.seq + 1 },
-           k := w.k.setRec { r with timeouted := false, timeoutT := a.1, tSched := some a.2 } }
+           k := w.k.modRec rid (fun r => { r with timeouted := false, timeoutT := a.1, tSched := some a.2 }) }
 
 /-- the scheduling half of `AddExpried(lock)` -/
 def W.schedExpried (w : W) (rid : Nat) : W :=
   let r := w.k.getR rid
   let a := wheelAdd w.db.eCheck w.db.seq r.expT r.eChecked
   { w with db := { w.db with seq := w.db.seq + 1 },
-           k := w.k.setRec { r with expried := false, expT := a.1, eSched := some a.2 } }
+           k := w.k.modRec rid (fun r => { r with expried := false, expT := a.1, eSched := some a.2 }) }
 
 /-- `AddExpried(lock)`: schedule, and journal the hold (once per depth level) when it is old enough -/
 def W.addExpried (w : W) (rid : Nat) : W :=
@@ -456,9 +456,8 @@ def W.newLock (w : W) (c : Cmd) (data : Option Bytes) : W × Nat :=
   let r : Rec := { rid := rid, cmd := c, data := data, conn := c.conn, startT := w.db.now, timeoutT := timeoutDeadline w.db.now c }
   ({ w with db := { w.db with nextRid := rid + 1 }, k := { w.k with recs := w.k.recs ++ [r], refCount := w.k.refCount + 1 } }, rid)
 
-/-- the record `AddLock` turns `lock` into -/
-def addLockRec (db : DB) (k : Key) (rid : Nat) : Rec :=
-  let r := k.getR rid
+/-- what `AddLock` does to the record -/
+def addLockF (db : DB) (k : Key) (r : Rec) : Rec :=
   let expT := expiryDeadline db.now r.cmd
   let aofTime := match k.cur with
     | none => aofTimeOf db r.cmd
@@ -467,12 +466,12 @@ def addLockRec (db : DB) (k : Key) (rid : Nat) : Rec :=
            depth := 1, refCount := r.refCount + 1, isAof := r.isAof || has r.cmd.flag F_FROM_AOF }
 
 /-- `AddLock(lock)` -/
-def Key.addLock (k : Key) (r1 : Rec) : Key :=
+def Key.addLock (k : Key) (rid : Nat) (f : Rec → Rec) : Key :=
   match k.current with
-  | none => { k.setRec r1 with current := some r1.rid }
-  | some _ => (k.setRec r1).locksPush r1.rid
+  | none => { k.modRec rid f with current := some rid }
+  | some _ => (k.modRec rid f).locksPush rid
 
-def W.addLock (w : W) (rid : Nat) : W := w.modK (·.addLock (addLockRec w.db w.k rid))
+def W.addLock (w : W) (rid : Nat) : W := w.modK (·.addLock rid (addLockF w.db w.k))
 
 def incLocked (k : Key) : Key := { k with locked := k.locked + 1 }
 
@@ -495,9 +494,8 @@ def W.grantNoHold (w : W) (rid : Nat) : W :=
   let w1 := w.procData .lock r.cmd (frameOf r.cmd r.data) rid
   ((w1.when (has r.cmd.flag F_DATA && requireAof w.k && cellNotAof w1.k) (·.pushLockAof rid 0)).modR rid (fun r => { r with data := none }))
 
-/-- the record `UpdateLockedLock(lock, c)` produces -/
-def updRec (db : DB) (k : Key) (rid : Nat) (c : Cmd) : Rec :=
-  let r := k.getR rid
+/-- what `UpdateLockedLock(lock, c)` does to the record (`sole`: it is the only holder and not journalled) -/
+def updF (db : DB) (sole : Bool) (c : Cmd) (r : Rec) : Rec :=
   let r1 : Rec :=
     if has c.eflag EF_UNLIMITED && c.expried ≥ 0xffff then { r with cmd := c }
     else
@@ -505,7 +503,6 @@ def updRec (db : DB) (k : Key) (rid : Nat) (c : Cmd) : Rec :=
       { r with cmd := c, startT := db.now, timeoutT := timeoutDeadline db.now c, expT := expT,
                tChecked := if has c.tflag TF_NO_RESET then r.tChecked else 1,
                eChecked := if has c.eflag EF_NO_RESET then r.eChecked else initChecked c db.now expT }
-  let sole := !r.isAof && k.current == some rid && k.locks.isEmpty
   let r2 := if sole then { r1 with aofTime := aofTimeOf db c } else r1
   -- a slot entry stays where it is; its back-off counter is the record's
   { r2 with eSched := r2.eSched.map (fun s => { s with checked := r2.eChecked }) }
@@ -513,8 +510,9 @@ def updRec (db : DB) (k : Key) (rid : Nat) (c : Cmd) : Rec :=
 /-- `UpdateLockedLock` + the long-table move + `lock.protocol = …` for a re-lock or update of hold `rid` by `c` -/
 def W.updateLocked (w : W) (rid : Nat) (c : Cmd) : W :=
   let r := w.k.getR rid
-  let r3 := updRec w.db w.k rid c
-  ((w.modK (·.setRec r3)).when (r.eLong && r.expT != r3.expT) (fun w => ((w.removeLongE rid).addExpried rid).ref rid)).modR rid
+  let sole := !r.isAof && w.k.current == some rid && w.k.locks.isEmpty
+  let r3 := updF w.db sole c r
+  ((w.modR rid (updF w.db sole c)).when (r.eLong && r.expT != r3.expT) (fun w => ((w.removeLongE rid).addExpried rid).ref rid)).modR rid
     (fun r => { r with conn := c.conn })
 
 /-- `CheckLockedEqual` -/
